@@ -497,7 +497,7 @@ func SexpToGo(sexp Sexp, env *Zlisp, dedup map[*SexpHash]interface{}) (result in
 		}
 
 		m := make(map[string]interface{})
-		for _, arr := range e.Map {
+		for _, arr := range e.orderedBuckets() {
 			for _, pair := range arr {
 				key := SexpToGo(pair.Head, env, dedup)
 				val := SexpToGo(pair.Tail, env, dedup)
@@ -792,7 +792,7 @@ func SexpToGoStructs(
 			switch target.(type) {
 			case *map[string]string:
 				m := make(map[string]string)
-				for _, arr := range src.Map {
+				for _, arr := range src.orderedBuckets() {
 					for _, pair := range arr {
 						key := SexpToGo(pair.Head, env, dedup)
 						val := SexpToGo(pair.Tail, env, dedup)
@@ -812,7 +812,7 @@ func SexpToGoStructs(
 
 			case *map[string]float64:
 				m := make(map[string]float64)
-				for _, arr := range src.Map {
+				for _, arr := range src.orderedBuckets() {
 					for _, pair := range arr {
 						key := SexpToGo(pair.Head, env, dedup)
 						val := SexpToGo(pair.Tail, env, dedup)
@@ -837,7 +837,7 @@ func SexpToGoStructs(
 				//P("target is a map[int64]float64")
 
 				m := make(map[int64]float64)
-				for _, arr := range src.Map {
+				for _, arr := range src.orderedBuckets() {
 					for _, pair := range arr {
 						key := SexpToGo(pair.Head, env, dedup)
 						val := SexpToGo(pair.Tail, env, dedup)
@@ -869,7 +869,7 @@ func SexpToGoStructs(
 					pmap := reflect.MakeMap(targElemTyp)
 					//P(" pmap starts out as %v/type = %T", pmap, pmap.Interface())
 					// if targ is *[]int, then targElem is []int, targElem.Elem() is int.
-					for _, arr := range src.Map {
+					for _, arr := range src.orderedBuckets() {
 						for _, pair := range arr {
 							key := SexpToGo(pair.Head, env, dedup)
 							//val := SexpToGo(pair.Tail, env, dedup)
@@ -988,7 +988,7 @@ func SexpToGoStructs(
 			panic(fmt.Errorf("type checking failed compare the factor associated with SexpHash and the provided target *T: expected '%s' (associated with typename '%s' in the GoStructRegistry) but saw '%s' type in target", tn, factType, targTyp))
 		}
 		//maploop:
-		for _, arr := range src.Map {
+		for _, arr := range src.orderedBuckets() {
 			for _, pair := range arr {
 				recordKey = ""
 				switch k := pair.Head.(type) {
